@@ -777,12 +777,3 @@ theorem to_dyn_arms_are_variants : ∀ a, a ∈ Gen.toDynArms → a ∈ Gen.refV
   decide
 
 end Rrtk.Thm.C17
-
-#print axioms Rrtk.Thm.C17.locked_increments_no_lost_update
-#print axioms Rrtk.Thm.C17.locked_increments_terminal
-#print axioms Rrtk.Thm.C17.read_returns_most_recent_write
-#print axioms Rrtk.Thm.C17.write_seen_by_all_clones
-#print axioms Rrtk.Thm.C17.alive_while_cloned
-#print axioms Rrtk.Thm.C17.to_dyn_arms_cover_in_crate
-#print axioms Rrtk.Thm.C17.to_dyn_arms_cover_fails_for_featureless_caller
-
